@@ -47,7 +47,12 @@ MATCH_NAMES = ["lost+found", "lib", "bin", "etc", "dev", "notes~", ".cache.x", "
                "nohup.out", "paper.keyboards", "form.ask", "form.askme", "model.3d", "xcap", "a~"]
 NEAR_NAMES = ["lost+foundx", "libx", "xlib", "bin2", "etcetera", "devel", "no~tes", "robots.txt2",
               "nohup.out.1", "mygophermap", "gophermap.txt", "paper.keyboardsx", "model.3dx", "capx",
-              "veronica.ctl.old", "xforward"]
+              "veronica.ctl.old", "xforward",
+              # the alternatives of the pattern in another letter case: not matched
+              "Lib", "BIN", "Etc", "DEV", "Robots.txt", "NOHUP.OUT", "report.ABSTRACT", "slides.3D",
+              "Lost+Found", "GopherMap", "Veronica.ctl", "form.ASK",
+              # names that are not in Unicode composed form (and a composed twin)
+              "cafe\u0301.txt", "caf\u00e9.txt", "A\u030angstrom", "\u1100\u1161.txt"]
 PLAIN_NAMES = ["alpha.txt", "beta.html", "gamma", "delta.txt", "Zeta", "eta.jpg", "10", "9", "B.txt", "a.txt"]
 DOT_NAMES = [".hidden", ".profile", ".x", ".private", ".d"]
 DOT_DIRS = [".private", ".d"]
@@ -132,7 +137,9 @@ def gen(seed, index, tier):
             spec.append({"p": pre + ".cap/" + nm, "k": "file",
                          "d": "Name=Capped %s\nNumb=%d\n" % (nm, rng.randrange(0, 5))})
         elif r < 0.37 and lfnames:
-            blocks[rng.choice(lfnames)].append("Path=./%s\nType=X\n" % nm)
+            # (a directory may be addressed with a trailing slash)
+            sl = "/" if (kinds.get(nm) == "dir" and rng.random() < 0.5) else ""
+            blocks[rng.choice(lfnames)].append("Path=./%s%s\nType=X\n" % (nm, sl))
             hidden.add(nm)
             if rng.random() < 0.5:
                 # the same entry is also given a title by another block (before or after the
@@ -142,8 +149,9 @@ def gen(seed, index, tier):
         elif r < 0.62 and lfnames:
             # override, sometimes from two different link files (same entry)
             for lf in rng.sample(lfnames, min(len(lfnames), rng.choice([1, 1, 2]))):
-                blocks[lf].append("Path=./%s\nName=Renamed %d\nNumb=%d\n"
-                                  % (nm, rng.randrange(100), rng.randrange(0, 4)))
+                sl = "/" if (kinds.get(nm) == "dir" and rng.random() < 0.5) else ""
+                blocks[lf].append("Path=./%s%s\nName=Renamed %d\nNumb=%d\n"
+                                  % (nm, sl, rng.randrange(100), rng.randrange(0, 4)))
     for lf in lfnames:
         for _ in range(rng.randrange(0, 3)):
             addn += 1
@@ -306,6 +314,11 @@ def execute(sc, tape=None):
                     out = bytes(pc.s2c)
                     fp = os.path.join(root, sc["dir"], nm)
                     empty_ok = os.path.isfile(fp) and os.path.getsize(fp) == 0
+                    if os.path.isdir(fp):
+                        # a directory whose own entries are all kept out of listings has an empty menu
+                        kids = [k for k in simfs.real_listdir(fp) if not k.startswith(".") and not _ctl(k)
+                                and not re.search(ignorepatt, selbase + "/" + nm + "/" + k)]
+                        empty_ok = not kids
                     if proto.is_not_found("gopher", out) or (not out and not empty_ok):
                         viol = {"oracle": "excluded-still-retrievable",
                                 "signature": {"oracle": "excluded-still-retrievable",
